@@ -578,6 +578,9 @@ def corpus():
         cs.append(np("/about/id", base, 2, 0, "/fr/a-propos/id?a=1", search="a=1", tables=OPTIONAL_TABLES))
         cs.append(np("/users", base, 2, 0, "/fr/utilisateurs", tables=SPLAT_TABLES))
         cs.append(np("/users/a/b", base, 2, 0, "/fr/utilisateurs/a/b", tables=SPLAT_TABLES))
+        # more path segments than the route has elements: the splat takes them all
+        cs.append(np("/users/a/b/c/d", base, 2, 0, "/fr/utilisateurs/a/b/c/d", tables=SPLAT_TABLES))
+        cs.append(np("/fr/utilisateurs/a/b/c", base, 0, 2, "/users/a/b/c", tables=SPLAT_TABLES))
     for base in ("foo", "/foo", "foo/", "/foo/"):
         cs.append(np("/foo/fr/bar", base, 1, 2, "/foo/en-US/bar"))
     for base, a, b, r, t in [("foo", 2, 1, ["bar"], {}), ("", 0, 2, ["english-page"], {}), ("/", 0, 2, ["english-page"], {}),
